@@ -1085,9 +1085,10 @@ class yanny(OrderedDict):
         # trailing_comments = re.compile(r'\s*\#.*$')
         # trailing_comments = re.compile(r'\s*\#[^"]+$')
         #
-        # Double empty braces get replaced with empty quotes
+        # Double empty braces get replaced with empty quotes, but only where
+        # a value can start: quoted strings and bare words are skipped.
         #
-        double_braces = re.compile(r'\{\s*\{\s*\}\s*\}')
+        double_braces = re.compile(r'"[^"]*"|[^\s"{]\S*|\{\s*\{\s*\}\s*\}')
         if len(lines) > 0:
             for line in lines.split('\n'):
                 if len(line) == 0:
@@ -1102,7 +1103,9 @@ class yanny(OrderedDict):
                 line = line.strip()
                 line = self.trailing_comment(line)
                 # line = trailing_comments.sub('',line)
-                line = double_braces.sub('""', line)
+                line = double_braces.sub(
+                    lambda m: '""' if m.group(0)[0] == '{' else m.group(0),
+                    line)
                 #
                 # Now if the first word on the line does not match a
                 # structure definition it is a keyword/value pair
